@@ -141,6 +141,36 @@ func init() {
 				var wg sync.WaitGroup
 				deleted, expired, topped := map[int]bool{}, map[int]bool{}, map[int]int64{}
 				closedByTest := map[string]bool{}
+				// sequential histories of traffic and rounds only: what had crossed the wire when a round began
+				// (with the user still active) is what that round must have charged in all
+				tapVol := func() (map[int]int64, map[int]int64) {
+					up, down := map[int]int64{}, map[int]int64{}
+					for _, t := range net.Tap {
+						var u, s int
+						fmt.Sscanf(t.Conn, "u%ds%d", &u, &s)
+						if t.Dir == "a>b" {
+							up[u] += int64(len(t.Data))
+						} else {
+							down[u] += int64(len(t.Data))
+						}
+					}
+					return up, down
+				}
+				snapUp, snapDown := map[int]int64{}, map[int]int64{}
+				snapshot := func() {
+					up, down := tapVol()
+					for u := 0; u < 2; u++ {
+						if panel.activeUsers[arr16(uidOf(u))] != nil {
+							snapUp[u], snapDown[u] = up[u], down[u]
+						}
+					}
+				}
+				trafficOnly := sequential
+				for _, op := range ops {
+					if !(op == "round" || strings.HasPrefix(op, "up") || strings.HasPrefix(op, "down")) {
+						trafficOnly = false
+					}
+				}
 				for i, op := range ops {
 					op := op
 					if sequential && i > 0 {
@@ -153,6 +183,9 @@ func init() {
 						var u, s, n int
 						switch {
 						case op == "round":
+							if trafficOnly {
+								snapshot()
+							}
 							panel.updateUsageQueue()
 							panel.commitUpdate()
 						case strings.HasPrefix(op, "admit"):
@@ -270,9 +303,19 @@ func init() {
 				}
 				// one further round after traffic has stopped
 				anyClosed := len(closedByTest) > 0
+				if trafficOnly {
+					snapshot()
+				}
 				panel.updateUsageQueue()
 				panel.commitUpdate()
 				quiesce()
+				if trafficOnly {
+					for u := 0; u < 2; u++ {
+						if up, down, ok := credits(u); ok && (upCredit-up != snapUp[u] || downCredit-down != snapDown[u]) {
+							vrt.Fail("charged-exactly-once", "sequential history %v: when the last usage round of user %d began, %d bytes had gone up and %d down on its connections; its credits went down by %d and %d", ops, u, snapUp[u], snapDown[u], upCredit-up, downCredit-down)
+						}
+					}
+				}
 				check("after the final round", !anyClosed)
 				// exhausted / expired / deleted users are cut off by that round
 				for _, w := range ws {
@@ -331,6 +374,9 @@ func init() {
 			{Scenario: "panel.usage", Params: vx.P("sessions", "0.1", "ops", "up0.1:10,close0.1,round", "seq", "1"), Bound: 0, Weight: 3},
 			{Scenario: "panel.usage", Params: vx.P("sessions", "0.1,0.2", "ops", "up0.1:10,up0.2:7,close0.1,round,close0.2,round", "seq", "1"), Bound: 0, Weight: 3},
 			{Scenario: "panel.usage", Params: vx.P("sessions", "0.1", "ops", "up0.1:10,round,close0.1,admit0.2,up0.2:9,close0.2", "seq", "1", "db", "bolt"), Bound: 0, Weight: 3},
+			{Scenario: "panel.usage", Params: vx.P("sessions", "0.1", "ops", "up0.1:300,down0.1:50,round", "upcredit", "200", "seq", "1", "db", "bolt"), Bound: 0, Weight: 3},
+			{Scenario: "panel.usage", Params: vx.P("sessions", "0.1", "ops", "down0.1:300,up0.1:50,round", "downcredit", "200", "seq", "1", "db", "bolt"), Bound: 0, Weight: 3},
+			{Scenario: "panel.usage", Params: vx.P("sessions", "0.1,1.1", "ops", "up0.1:300,down0.1:50,up1.1:20,down1.1:30,round,up1.1:5,round", "upcredit", "200", "seq", "1", "db", "bolt"), Bound: 0, Weight: 3},
 			{Scenario: "panel.usage", Params: vx.P("sessions", "0.1", "ops", "up0.1:300,round,close0.1,admit0.2", "upcredit", "200", "delay", "1"), Bound: b(2, 3), Weight: 8},
 			{Scenario: "panel.usage", Params: vx.P("sessions", "0.1", "ops", "up0.1:300,round,admit0.2", "upcredit", "200", "delay", "1"), Bound: b(2, 3), Weight: 8},
 			{Scenario: "panel.usage", Params: vx.P("sessions", "0.1", "ops", "up0.1:10,down0.1:5,round", "db", "bolt"), Bound: b(1, 2), Weight: 9},
